@@ -58,16 +58,19 @@ theorem C03_held_is_requeued {s : L} (hi : RecInv s) (r : URec) (hl : Live s r)
 /-- one iteration of the EndBlock loop on a due, un-held record whose completion succeeds:
 the record leaves all three stores, the staker's withdrawable grows by exactly the remaining
 (`actual`) amount and its pending figure shrinks by the original amount; nothing else about other
-records changes. -/
+records changes. For the native token the credit is a bank transfer of exactly `actual` out of the
+escrow account. -/
 theorem C03_due_unheld_released_exact {s s' : L} {r : URec} (hi : RecInv s) (hl : Live s r)
     (hh : getD s.holds r.key 0 = 0) (hc : completeRecord s r = .ok s') :
     endBlockRecord s r = s' ∧ RecInv s' ∧ find? s'.recs r.key = none ∧
     find? s'.pidx (r.completeBlock, r.nonce) = none ∧ find? s'.sidx (r.staker, r.asset, r.nonce) = none ∧
     (∀ k, k ≠ r.key → find? s'.recs k = find? s.recs k) ∧
-    (getD s'.stakers (r.staker, r.asset) zeroStaker).withdrawable
-      = (getD s.stakers (r.staker, r.asset) zeroStaker).withdrawable + r.actual ∧
-    (getD s'.stakers (r.staker, r.asset) zeroStaker).pending
-      = (getD s.stakers (r.staker, r.asset) zeroStaker).pending - r.amount := by
+    (r.asset = nativeAID → s'.escrow = s.escrow - r.actual ∧ r.actual ≤ s.escrow) ∧
+    (r.asset ≠ nativeAID → s'.escrow = s.escrow ∧
+      (getD s'.stakers (r.staker, r.asset) zeroStaker).withdrawable
+        = (getD s.stakers (r.staker, r.asset) zeroStaker).withdrawable + r.actual ∧
+      (getD s'.stakers (r.staker, r.asset) zeroStaker).pending
+        = (getD s.stakers (r.staker, r.asset) zeroStaker).pending - r.amount) := by
   obtain ⟨_, _, _, _, _, _, hok, _⟩ := endBlockRecord_spec hi hl
   obtain ⟨_, i2, gone, oth, _, _, w, p⟩ := completeRecord_spec hi hl hc
   refine ⟨hok hh s' hc, i2, gone, ?_, ?_, oth, w, p⟩
@@ -103,12 +106,12 @@ def C03_full : Prop :=
     ∀ k r, find? s2.recs k = some r → find? s2.pidx (r.completeBlock, r.nonce) = some k
 
 private def w0 : L :=
-  { height := 5, unbonding := 10, totals := [("a", 100)], operators := ["o1", "o2"],
+  { height := 5, unbonding := 10, totals := [("a", 100)], operators := ["o1", "o2"], clientChains := [],
     stakers := [(("s", "a"), ⟨100, 0, 0⟩)],
     pools := [(("o1", "a"), ⟨50, 0, ⟨50000000000000000000⟩, ⟨0⟩⟩), (("o2", "a"), ⟨50, 0, ⟨50000000000000000000⟩, ⟨0⟩⟩)],
     deleg := [(("s", "a", "o1"), ⟨⟨50000000000000000000⟩, 0⟩), (("s", "a", "o2"), ⟨⟨50000000000000000000⟩, 0⟩)],
     slist := [(("o1", "a"), ["s"]), (("o2", "a"), ["s"])], assoc := [], recs := [], sidx := [], pidx := [],
-    holds := [], gDep := [], gWd := [], gSlashed := [] }
+    holds := [], bal := [], escrow := 0, gDep := [], gWd := [], gSlashed := [] }
 
 /-- the collision, concretely: both undelegations are accepted, both records exist, but the pending
 index entry (15, 7) points at the second one only — the first is never found by EndBlock. -/
